@@ -340,7 +340,7 @@ def cases(draw, tier):
     basecls = B[name][0]
     kind = draw(st.sampled_from(["int", "gap"])) if draw(st.integers(0, 3)) else draw(nets.kinds)
     spec = draw(nets.net_spec(cls=basecls, kind=kind, max_edges=5, min_edges=1, allow_empty=(basecls != "SC" and draw(st.integers(0, 3)) == 0),
-                              ids=draw(st.sampled_from(["perm", "gap", "zero-desc", "zero-desc", "str", "mixed", "auto"]))))
+                              ids=draw(st.sampled_from(["perm", "gap", "zero-desc", "zero-desc", "str", "mixed", "auto", "big"]))))
     idcast = draw(st.sampled_from(IDCASTS))
     outcls = name.split(".")[0]
     n = 10 if tier == "quick" else 14
